@@ -2,6 +2,7 @@ SPECIFICATION Spec
 CONSTANTS
   Alphabet = {"COL","EQ","LT","GT","ST","DOT","AMP","L","SEMI"}
   MaxLen = 5
+  Prefix = "none"
   Emit = TRUE
 INVARIANTS TypeOK NoTie Tiling LineColDecl Total CodecRoundTrip SemTokOrdered EmitReplay
 CHECK_DEADLOCK FALSE
